@@ -801,3 +801,7 @@ func collectRaceReports(dir string, frames []string) ([]raceReport, int) {
 	sort.Slice(out, func(i, j int) bool { return out[i].key < out[j].key })
 	return out, total
 }
+
+// NewShardForDebug returns an empty shard for debugging aids that run a case
+// outside the sharded runner.
+func NewShardForDebug() *Shard { return newShard() }
